@@ -31,7 +31,7 @@ def _run(pid, d, tier):
     return p.returncode, p.stdout + p.stderr
 
 
-def main(pids, only_dir, tier):
+def main(pids, only_dir, tier, match=None):
     results = []
     todo = []
     for path in sorted(glob.glob(os.path.join(ROOT, "mutants", "*.json"))):
@@ -46,6 +46,8 @@ def main(pids, only_dir, tier):
             if pids and pid not in pids:
                 continue
             todo.append((pid, "seeded/" + os.path.basename(os.path.dirname(meta)), {"patch": os.path.join(os.path.dirname(meta), "patch.diff")}))
+    if match:
+        todo = [t for t in todo if any(x in t[1] for x in match.split(","))]
     missed = 0
     for pid, name, m in todo:
         d = _scratch()
